@@ -49,6 +49,15 @@ BACKREF_SEQS = [
     [('q', True, 0, None, '.'), ('tag', 'lit_a'), ('ref',)],
     [('tag', 'any'), ('q', True, 1, 2, 'a'), ('ref',)],
 ]
+# a tag set INSIDE an (untagged) quantifier, optionally with static tags on the quantifier, then a back-reference: the tag must be the one of the
+# last iteration that survives back-off, exactly like a group inside a repeated non-capturing regex group
+for _g in (True, False):
+    for _lo, _hi in RANGES:
+        for _st in (False, True):
+            BACKREF_SEQS.append([('qtag', _g, _lo, _hi, _st), ('ref',)])
+            BACKREF_SEQS.append([('qtag', _g, _lo, _hi, _st), ('ref',), ('q', True, 0, None, '.')])
+            BACKREF_SEQS.append([('any',), ('qtag', _g, _lo, _hi, _st), ('ref',), ('lit', 'a')])
+
 CONTAINERS = ('List.elts', 'Module.body', 'Global.names')
 
 
@@ -104,6 +113,9 @@ def regex_of(atoms):
             out.append('(?P<t>.)' if a[1] == 'any' else '(?P<t>a)')
         elif a[0] == 'ref':
             out.append('(?P=t)')
+        elif a[0] == 'qtag':
+            _, greedy, lo, hi, _st = a
+            out.append('(?:(?P<t>.)){%d,%s}' % (lo, '' if hi is None else hi) + ('' if greedy else '?'))
         else:
             _, greedy, lo, hi, sub = a
             body = {'a': 'a', '.': '.', 'ab': '(?>ab)', 'aB*': '(?>ab*)'}[sub]
@@ -142,6 +154,9 @@ def pattern_of(atoms, cont):
             pats.append(M(t=... if a[1] == 'any' else lit('a')))
         elif a[0] == 'ref':
             pats.append(MTAG('t'))
+        elif a[0] == 'qtag':
+            _, greedy, lo, hi, static = a
+            pats.append((MQ if greedy else MQ.NG)(M(t=...), min=lo, max=hi, **({'st1': 1, 'st2': 'x'} if static else {})))
         else:
             _, greedy, lo, hi, sub = a
             body = {'a': lit('a'), '.': ..., 'ab': [lit('a'), lit('b')], 'aB*': [lit('a'), MQSTAR(lit('b'))]}[sub]
@@ -174,7 +189,7 @@ def make_target(seq, cont):
 def run_grid(case, ctx):
     from fst.match import MList, MModule, MGlobal
 
-    atoms = [ATOMS[i] for i in case['grid']] if 'grid' in case else BACKREF_SEQS[case['backref']]
+    atoms = [tuple(a) for a in case['atoms']] if 'atoms' in case else [ATOMS[i] for i in case['grid']] if 'grid' in case else BACKREF_SEQS[case['backref']]
     cont = case['cont']
     rx, first_tagged = regex_of(atoms)
     creg = re.compile(rx)
@@ -376,10 +391,45 @@ def tag_shape(m, root):
     return tuple(sorted((k, d(v)) for k, v in m.tags.items()))
 
 
-def build_pattern(base, comb, other_cls):
-    from fst.match import M, MAND, MCB, MNOT, MOR, MTYPES
+SELF_MATCH_KINDS = {'plain', 'M', 'MOR', 'MAND', 'MNOT2', 'MTYPES', 'MCB', 'MOR_MAND', 'type', 'MOR_type_cb', 'MOR_cb_types', 'MAND_MNOT_cb', 'M_MOR_MOR', 'MOR_MTYPES_cb',
+                    'MNOT2_MOR', 'MAND_MOR', 'MOR_MAND_cb'}
 
-    c = comb % 10
+
+def _is_cls(cls):
+    return lambda n: (n.a if hasattr(n, 'a') and not isinstance(n, ast.AST) else n).__class__ is cls
+
+
+def build_pattern(base, comb, other_cls):
+    from fst.match import M, MAND, MCB, MNOT, MOR, MRE, MTYPES
+
+    c = comb % 22
+    bcls = base.__class__
+
+    # 10..21: combinations that exercise search()'s node-type pre-filter: alternatives whose node type is known mixed with ones where it is not
+    if c == 10:
+        return MOR(other_cls, MCB(_is_cls(bcls))), 'MOR_type_cb'
+    if c == 11:
+        return MOR(MCB(_is_cls(bcls)), other_cls, ast.Name), 'MOR_cb_types'
+    if c == 12:
+        return MNOT(base), 'MNOT_node'
+    if c == 13:
+        return MNOT(MOR(other_cls, base)), 'MNOT_MOR'
+    if c == 14:
+        return MAND(MNOT(other_cls), MCB(_is_cls(bcls))), 'MAND_MNOT_cb'
+    if c == 15:
+        return M(MOR(MOR(other_cls, MCB(_is_cls(bcls))), ast.Constant), t=1), 'M_MOR_MOR'
+    if c == 16:
+        return MOR(other_cls, MRE('[a-z_]', search=True)), 'MOR_type_re'
+    if c == 17:
+        return MOR(MTYPES((other_cls, ast.Name)), MCB(_is_cls(bcls))), 'MOR_MTYPES_cb'
+    if c == 18:
+        return MNOT(MNOT(MOR(bcls, MCB(lambda n: False)))), 'MNOT2_MOR'
+    if c == 19:
+        return MAND(MOR(bcls, MCB(lambda n: True)), MNOT(other_cls)), 'MAND_MOR'
+    if c == 20:
+        return MOR(MAND(bcls, MCB(lambda n: True)), MCB(_is_cls(ast.Name))), 'MOR_MAND_cb'
+    if c == 21:
+        return MNOT(MTYPES((other_cls, ast.Name))), 'MNOT_MTYPES'
 
     if c == 0:
         return base, 'plain'
@@ -449,7 +499,7 @@ def run_struct(case, ctx):
 
         expect_match = pkind != 'MNOT' and pkind != 'MTYPES' or True
 
-        if pkind not in ('MNOT',) and m_fst is None:
+        if pkind in SELF_MATCH_KINDS and m_fst is None:
             raise Violation('C17.self_match', f'{desc}: the node does not match a pattern built from its own pure AST\n--- src ---\n{src[:500]}', f'self:{site}')
 
         # representation independence: pure AST target
